@@ -154,24 +154,50 @@ Section S.
     - reflexivity.
   Qed.
 
-  (* custom operation arguments: right for types without list wrappers (and for types without serialize) *)
-  Lemma custom_args_aux f : forall t nn v log,
-    has_list t = false -> cfg_ser (scalar_cfg_of S (named_of t)) = Some f ->
-    occ_ser S t nn v = Some log -> match v with PNone => [] | _ => [(f, v)] end = log.
+  (* custom operation arguments (since /repo 3032a3a): once per non-None occurrence for every wrapper nesting *)
+  Lemma cu_arg_log ser f : forall t nn d0 v log,
+    cfg_ser (scalar_cfg_of S (named_of t)) = Some f -> occ_ser S t nn v = Some log ->
+    exists w, cu_arg ser f t (negb nn) d0 v = Some (w, log).
   Proof.
-    induction t as [n|t' IH|t' IH]; intros nn v log Hl Ec H; try discriminate.
-    - simpl in *. rewrite Ec in H. destruct v; try discriminate; try (inversion H; reflexivity).
-      destruct nn; [discriminate|inversion H; reflexivity].
-    - simpl in *. eapply IH; eauto.
+    induction t as [n|t' IH|t' IH]; intros nn d0 v log Hc H.
+    - simpl in *. rewrite Hc in H.
+      destruct v; try discriminate;
+        try (inversion H; subst; eexists; destruct nn, d0; reflexivity).
+      destruct nn; [discriminate|]. inversion H; subst. eexists. reflexivity.
+    - simpl in *. destruct v; try discriminate.
+      + destruct nn; [discriminate|]. inversion H; subst. eexists. reflexivity.
+      + assert (Hl : exists rs, map_opt (cu_arg ser f t' true false) l = Some rs /\ List.concat (map snd rs) = log).
+        { revert log H. induction l as [|e r IHl]; intros log H.
+          - inversion H; subst. exists []. split; reflexivity.
+          - destruct (occ_ser S t' false e) as [a1|] eqn:E1; [|discriminate].
+            match type of H with
+            | match ?g with _ => _ end = _ => destruct g as [a2|] eqn:E2; [|discriminate]
+            end.
+            inversion H; subst.
+            destruct (IH false false e a1 Hc E1) as [w Hw]. simpl in Hw.
+            destruct (IHl a2 eq_refl) as [rs [Hrs Hcat]].
+            exists ((w, a1) :: rs). split; [simpl; rewrite Hw, Hrs; reflexivity|simpl; rewrite Hcat; reflexivity]. }
+        destruct Hl as [rs [Hrs Hcat]]. exists (PList (map fst rs)).
+        rewrite Hrs. simpl. rewrite Hcat. destruct nn, d0; reflexivity.
+    - simpl in *. apply (IH true d0 v log Hc H).
   Qed.
 
-  Lemma custom_args_no_list t v log :
-    has_list t = false -> occ_ser S t false v = Some log -> custom_arg_log S t v = log.
+  Lemma custom_args ser t v log :
+    (forall f, var_ser S t = Some f -> String.eqb f "x" = false /\ is_item_name f = false) ->
+    occ_ser S t false v = Some log -> custom_arg_log ser S t v = Some log.
   Proof.
-    intros Hl H. unfold custom_arg_log. rewrite var_ser_cfg.
-    destruct (cfg_ser (scalar_cfg_of S (named_of t))) as [f|] eqn:Ec.
-    - eapply custom_args_aux; eauto.
-    - symmetry. eapply occ_ser_no_ser; eauto.
+    intros Hn H. unfold custom_arg_log. pose proof (var_ser_cfg t) as Hv.
+    destruct (var_ser S t) as [f|] eqn:Ef.
+    - destruct (Hn f eq_refl) as [Hx Hi].
+      rewrite (eval_gen_cu ser f) with (v := v).
+      + destruct (cu_arg_log ser f t false true v log (eq_sym Hv) H) as [w Hw]. simpl in Hw. simpl Nat.eqb.
+        rewrite Hw. reflexivity.
+      + intro d. destruct (String.eqb f (item_name d)) eqn:E; [|reflexivity].
+        apply String.eqb_eq in E. subst f. unfold is_item_name in Hi.
+        unfold item_name in Hi. simpl in Hi. destruct (z_to_string (Z.of_nat d)); discriminate.
+      + reflexivity.
+      + simpl. rewrite Hx. reflexivity.
+    - f_equal. symmetry. eapply occ_ser_no_ser; [symmetry; exact Hv|exact H].
   Qed.
 
   (* an unconfigured scalar (or one without parse / serialize) triggers no hook *)
